@@ -98,7 +98,9 @@ ChainOK(ch) ==
     /\ ch.copy_majors = ch.major_alleles           \* minors refine majors one to one (sorted lists)
     /\ ch.allele_cfgs = ch.cn_struct               \* configurations match the structure copy for copy
     /\ ch.dip_sorted = [i \in 1..ch.ncopies |-> i - 1]   \* the diplotype lists each copy exactly once
-FinalEdge == \E i \in DOMAIN minS : Near(minS[i].final - MinFinal - GapU, PrecU + 10)
+(* a candidate whose distance to the selection threshold is within the rounding of the recorded (rescaled) scores:      *)
+(* the code compares floats (0.31 - 0.3 < 0.01 is TRUE in binary floating point), the spec integers                    *)
+FinalEdge == \E i \in DOMAIN minS : Abs(minS[i].final - MinFinal - GapU - PrecU) <= Tol + 10
 RepOrder == [k \in DOMAIN Ev.sols |-> Ev.sols[k].idx]
 OnReport ==
     /\ verdict = "" /\ Ev.k = "report"
